@@ -192,15 +192,21 @@ def run(ctx):
     n = 0
     signal.signal(signal.SIGVTALRM, _alarm)
     states = list(STATE_PREFIXES.items())
+    # OpenSent of a SECOND session (the first ended with a framing error; the peer may come back with another
+    # BGP identifier, other capabilities, another hold time): input is delivered on connection 1
+    second = tuple(sc.EST_PREFIX) + (('data', 0, M['bad_marker']), ('lost', 0), ('fire', 'TIdleHold'), ('connok', 1))
     for idx, (ty, body) in enumerate(bodies):
         sname, prefix = states[idx % 3] if ty != 2 else ('Established', sc.EST_PREFIX) if idx % 4 else states[idx % 3]
+        cid = 0
         if ty == 1 and idx % 5:
             sname, prefix = states[0]       # OpenSent: the state in which an OPEN body is decoded and acted on
+            if idx % 3 == 0:
+                sname, prefix, cid = 'OpenSent (second session)', second, 1
         msg = MARK + struct.pack('!HB', 19 + len(body), ty) + body
         d = session.Driver()
         for e in prefix:
             d.apply(e)
-        events = [('data', 0, msg), ('data', 0, M['update_ok']), ('data', 0, M['keepalive'])]
+        events = [('data', cid, msg), ('data', cid, M['update_ok']), ('data', cid, M['keepalive'])]
         n += 1
         n_rep0 = len(d.handler.calls)
         st_before = d.state()
@@ -240,6 +246,10 @@ def run(ctx):
         if closed:
             kinds['closed'] += 1
         for r in res:
+            if r[0] and not r[2][4]:
+                viol.append({'what': 'automatic restart was switched off by peer input (no operator stop) in state %s' % sname,
+                             'type': ty, 'body': body.hex(), 'known': None})
+                break
             if r[0] and not pending(r[2]):
                 viol.append({'what': 'neither in session nor reconnect pending after input in state %s' % sname,
                              'type': ty, 'body': body.hex(), 'state': r[2][:7], 'known': None})
